@@ -8,6 +8,7 @@ import (
 	"pdverif/internal/cli"
 	_ "pdverif/internal/gc"
 	_ "pdverif/internal/idalloc"
+	_ "pdverif/internal/placementh"
 	_ "pdverif/internal/regionh"
 	_ "pdverif/internal/tsoh"
 )
